@@ -183,7 +183,7 @@ class ListTheory:
             self.at(self.snoc(l, e), i),
             self.at(self.snoc(l, e), i) == z3.If(i == self.len(l), e, self.at(l, i)),
             f"at.snoc.{name}",
-        )
+        ).liberal = True
         self._l, self._l2, self._i, self._e = l, l2, i, e
 
     def ext_facts(self, a, b):
@@ -435,16 +435,155 @@ def arith_normalize(t):
     return z3.substitute(t, pairs) if pairs else t
 
 
+class EGraph:
+    """congruence closure over the ground terms seen so far, fed with the unit equalities of
+    hypotheses and instances.  It only steers WHICH axiom instances are generated (matching
+    modulo known equalities); every generated instance is a valid instance whatever the
+    E-graph says, so it cannot affect soundness."""
+
+    def __init__(self):
+        self.parent: dict = {}
+        self.terms: dict = {}
+        self.members: dict = {}
+        self.apps: dict = {}  # id -> (decl id, child ids) of application terms
+
+    def add(self, t):
+        k = t.get_id()
+        if k not in self.parent:
+            self.parent[k] = k
+            self.terms[k] = t
+            self.members[k] = [k]
+            if z3.is_app(t) and t.num_args() > 0:
+                kids = t.children()
+                for c in kids:
+                    self.add(c)
+                self.apps[k] = (t.decl().get_id(), [c.get_id() for c in kids])
+
+    def find(self, k):
+        p = self.parent
+        while p[k] != k:
+            p[k] = p[p[k]]
+            k = p[k]
+        return k
+
+    def union(self, a, b):
+        self.add(a)
+        self.add(b)
+        ra, rb = self.find(a.get_id()), self.find(b.get_id())
+        if ra == rb:
+            return False
+        if len(self.members[ra]) < len(self.members[rb]):
+            ra, rb = rb, ra
+        self.parent[rb] = ra
+        self.members[ra].extend(self.members.pop(rb))
+        return True
+
+    def same(self, a, b):
+        if a.eq(b):
+            return True
+        ka, kb = a.get_id(), b.get_id()
+        if ka not in self.parent or kb not in self.parent:
+            return False
+        return self.find(ka) == self.find(kb)
+
+    def class_of(self, t):
+        k = t.get_id()
+        if k not in self.parent:
+            return [t]
+        return [self.terms[m] for m in self.members[self.find(k)]]
+
+    def feed(self, formulas, liberal=False):
+        stack = list(formulas)
+        while stack:
+            f = stack.pop()
+            if isinstance(f, Forall) or not z3.is_expr(f):
+                continue
+            if z3.is_and(f):
+                stack.extend(f.children())
+            elif z3.is_eq(f) and not z3.is_bool(f.arg(0)):
+                a, b = f.arg(0), f.arg(1)
+                self.union(a, b)
+                # liberal (only for instances of axioms flagged so, i.e. at(snoc(l,e),i)): a term
+                # equated to an if-then-else is treated as possibly equal to either branch
+                # (only widens which instances are generated)
+                for x, y in ((a, b), (b, a)) if liberal else ():
+                    st2 = [y]
+                    while st2:
+                        u = st2.pop()
+                        if z3.is_app(u) and u.decl().kind() == z3.Z3_OP_ITE:
+                            self.union(x, u.arg(1))
+                            self.union(x, u.arg(2))
+                            st2.extend([u.arg(1), u.arg(2)])
+
+
+    def close(self, terms):
+        for t in terms:
+            self.add(t)
+        changed = True
+        rounds = 0
+        while changed and rounds < 8:
+            changed = False
+            rounds += 1
+            sig: dict = {}
+            find = self.find
+            for k, (d, kids) in self.apps.items():
+                key = (d, tuple([find(c) for c in kids]))
+                other = sig.get(key)
+                if other is None:
+                    sig[key] = k
+                elif find(other) != find(k):
+                    self.union(self.terms[other], self.terms[k])
+                    changed = True
+
+
+def _ematch(pat, term, vids, subst, eg):
+    """all extensions of `subst` matching `pat` against `term` modulo the E-graph"""
+    if pat.get_id() in vids:
+        cur = subst.get(pat.get_id())
+        if cur is None:
+            if pat.sort() != term.sort():
+                return []
+            s2 = dict(subst)
+            s2[pat.get_id()] = term
+            return [s2]
+        return [subst] if eg.same(cur, term) else []
+    if not z3.is_app(pat) or pat.num_args() == 0:
+        return [subst] if eg.same(pat, term) else []
+    out = []
+    seen = 0
+    for m in eg.class_of(term):
+        if not z3.is_app(m) or m.num_args() != pat.num_args() or not pat.decl().eq(m.decl()):
+            continue
+        seen += 1
+        if seen > 6:
+            break
+        partial = [subst]
+        for pc, mc in zip(pat.children(), m.children()):
+            nxt = []
+            for s in partial:
+                nxt.extend(_ematch(pc, mc, vids, s, eg))
+            partial = nxt
+            if not partial:
+                break
+        out.extend(partial)
+    return out
+
+
 def instantiate(axioms, ground, fuel=3, max_instances=4000):
     """Ground-instantiate `axioms` against the ground terms of `ground` (list of z3
-    Bool terms).  Returns the list of instances (quantifier-free)."""
+    Bool terms), matching modulo the unit equalities known so far.  Returns the list of
+    instances (quantifier-free)."""
     terms: dict = {}
     for g in ground:
         _subterms(g, terms)
+    eg = EGraph()
+    eg.feed(ground)
     done = set()
     out = []
     for _round in range(fuel):
+        eg.close(terms.values())
         new = []
+        new_liberal = []
         by_decl: dict = {}
         for t in terms.values():
             if z3.is_app(t):
@@ -457,9 +596,18 @@ def instantiate(axioms, ground, fuel=3, max_instances=4000):
                 nxt = []
                 for s in substs:
                     for t in cands:
-                        s2 = _match(pat, t, vids, s)
-                        if s2 is not None:
-                            nxt.append(s2)
+                        if not pat.decl().eq(t.decl()) or pat.num_args() != t.num_args():
+                            continue
+                        # the candidate itself has the trigger's head: match its arguments modulo E
+                        partial = [s]
+                        for pc, tc in zip(pat.children(), t.children()):
+                            n2 = []
+                            for s1 in partial:
+                                n2.extend(_ematch(pc, tc, vids, s1, eg))
+                            partial = n2
+                            if not partial:
+                                break
+                        nxt.extend(partial)
                 substs = nxt
                 if not substs:
                     break
@@ -473,6 +621,8 @@ def instantiate(axioms, ground, fuel=3, max_instances=4000):
                 inst = z3.substitute(ax.body, [(v, s[v.get_id()]) for v in ax.vars])
                 inst = arith_normalize(inst)
                 new.append(inst)
+                if getattr(ax, "liberal", False):
+                    new_liberal.append(inst)
                 if len(done) > max_instances:
                     raise RuntimeError("instantiation budget exceeded")
         if not new:
@@ -480,6 +630,8 @@ def instantiate(axioms, ground, fuel=3, max_instances=4000):
         out.extend(new)
         for inst in new:
             _subterms(inst, terms)
+        eg.feed(new)
+        eg.feed(new_liberal, liberal=True)
     return out
 
 
